@@ -447,10 +447,16 @@ class AutoSerialize:
             subgroup.attrs["_numpy_rng"] = True
             # Get state from the bit_generator
             rng_state = value.bit_generator.state
-            if hasattr(rng_state, "tolist"):
-                subgroup.attrs["_rng_state"] = rng_state.tolist()
-            else:
-                subgroup.attrs["_rng_state"] = rng_state
+
+            def _plain(s):
+                # MT19937 / Philox / SFC64 keep ndarrays inside their state dict: make it JSON-able
+                if isinstance(s, dict):
+                    return {k: _plain(v) for k, v in s.items()}
+                if isinstance(s, (np.ndarray, np.generic)):
+                    return s.tolist()
+                return s
+
+            subgroup.attrs["_rng_state"] = _plain(rng_state)
             subgroup.attrs["_rng_type"] = value.__class__.__name__
             subgroup.attrs["_bit_generator_type"] = value.bit_generator.__class__.__name__
 
